@@ -10,6 +10,7 @@ mod eng_obs;
 mod eng_conc;
 mod eng_own;
 mod eng_vconc;
+mod eng_vstep;
 
 use common::*;
 use std::path::PathBuf;
@@ -40,6 +41,7 @@ fn main() {
         "conc" => eng_conc::run(&a, &mut sink),
         "own" => eng_own::run(&a, &mut sink),
         "vconc" => eng_vconc::run(&a, &mut sink),
+        "vstep" => eng_vstep::run(&a, &mut sink),
         "obsasync" => eng_obs::run(&a, &mut sink, true),
         e => {
             eprintln!("unknown engine {e}");
